@@ -21,7 +21,8 @@ SPEC = dict(
          'the fault-free result; the same operation repeated without a fault on the same context and setup objects gives the fault-free return code and result; after freeing '
          'every returned object, the setup objects and the context no SDK allocation and no HTTP transfer handle is live. '
          'Further operations: second requests on primed objects, release under fault, a request carrying hash and configuration request, tree builder with retried steps, a signature whose calendar chain switches hash algorithms. '
-         'A failed KSI_Signature_getPublicationInfo must leave all its outputs unset.',
+         'A failed KSI_Signature_getPublicationInfo must leave all its outputs unset.'
+         ' Operation builder-append-chain-leaf-level-1: a tree builder chain of leaves at level 1 appended and closed at root level 1 (the corrected chain is not the first element of the signature).',
     bounds=dict(quick='90 operations; every single fault index where N <= 800, every ceil(N/800)-th index beyond (stride 3 for three async requests and the block signer); no pairs',
                 thorough='90 operations; every single fault index 1..N (largest N about 2400, limit 5000: no operation is strided); all pairs i<j for the operations with N <= 60'),
     technique='exhaustive allocation-fault enumeration (single faults, and fault pairs for small operations) on the real compiled code under ASan/UBSan with a counting allocator funnel and live-block accounting',
